@@ -472,6 +472,9 @@ CASES += [
     ("sum/mean/prod axis=(-2,-1) (2,2,3)", "lambda anp, x: anp.sum(x, axis=(-2, -1)) + anp.mean(x, axis=(-2, -1)) * anp.prod(x, axis=(-1, -2))", [((2, 2, 3), "P")], (0,)),
     ("std axis=(-2,-1) (2,2,3)", "lambda anp, x: anp.std(x, axis=(-2, -1))", [((2, 2, 3), "P")], (0,)),
     ("var axis=(-1,-2) ddof (2,2,3)", "lambda anp, x: anp.var(x, axis=(-1, -2), ddof=1)", [((2, 2, 3), "P")], (0,)),
+    # clip against array-valued bounds that broadcast the clipped array
+    ("clip scalar against array bounds", "lambda anp, x: anp.clip(x, " + _np + ".array([0.0, 1.0, 2.0]), " + _np + ".array([3.0, 1.2, 2.5]))", [((), "P")], (0,)),
+    ("clip row against matrix bounds", "lambda anp, x: anp.clip(x, " + _np + ".zeros((2, 3)), " + _np + ".array([[1.0, 2.0, 3.0], [0.2, 3.0, 1.0]]))", [((3,), "P")], (0,)),
     # reductions of ONE-element arrays of rank >= 1 (the reduction still removes axes)
     ("max (1,)", "lambda anp, x: anp.max(x)", [((1,), "R")], (0,)),
     ("min (1,1) axis=0", "lambda anp, x: anp.min(x, axis=0)", [((1, 1), "R")], (0,)),
